@@ -297,6 +297,11 @@ func (l listEnviron) compare(a, b string) int {
 }
 
 func (l listEnviron) Get(name string) Variable {
+	if strings.IndexByte(name, '=') >= 0 {
+		// Variable names cannot contain '='; without this check, the search below
+		// could match a whole "name=value" pair and slice past its end.
+		return Variable{}
+	}
 	eqpos := len(name)
 	endpos := len(name) + 1
 	i, ok := slices.BinarySearchFunc(l.pairs, name, func(pair, name string) int {
